@@ -59,6 +59,9 @@ type c19World struct {
 	metadata map[uint64][]byte
 	feat     map[string]int
 	forceMD  []byte // the next operation uses exactly this metadata
+
+	savedShadow func(*sim.L1)
+	savedSpec   bool
 }
 
 func (w *c19World) tr() []string { return tail(w.log, 30) }
@@ -426,7 +429,12 @@ func (w *c19World) armPermFault() bool {
 	if w.forceMD != nil || !w.rng.Chance(6) {
 		return false
 	}
-	p := w.env.L1.Perm
+	// only the operation itself runs while the lookup fails: no speculative pre-run, no shadow script on a branch (they
+	// share the keeper object and would be counted as the operation's own lookups)
+	l1 := w.env.L1
+	w.savedShadow, w.savedSpec = l1.Shadow, l1.Speculate
+	l1.Shadow, l1.Speculate = nil, false
+	p := l1.Perm
 	p.FailIsTaken, p.IsTakenFailures = true, 0
 	return true
 }
@@ -440,6 +448,7 @@ func (w *c19World) permFaultFired(armed bool, kind string, before map[string]str
 	p := w.env.L1.Perm
 	fired := p.IsTakenFailures > 0
 	p.FailIsTaken = false
+	w.env.L1.Shadow, w.env.L1.Speculate = w.savedShadow, w.savedSpec
 	if !fired {
 		return false
 	}
